@@ -350,6 +350,12 @@ def diff_views(v1, v2, ir, tol=0.0, compare_n=False, fields=None):
                 kx, ky = _kind(x), _kind(y)
                 if kx == ky:
                     sig = "param-value-changed:" + kx
+                    if kx == "sym":
+                        try:
+                            neg = sympy.srepr(-sympy.sympify(x[1]))
+                            sig += "-negated" if sym_equal(neg, y[1]) else "-other"
+                        except Exception:
+                            sig += "-other"
                 else:
                     sig = "param-kind:%s->%s" % (kx, ky)
                 if a["op"] in MEASURE:
@@ -1546,6 +1552,11 @@ def search(ctx):
             evaluate(ctx, d["spec"], origin="corpus:" + os.path.basename(f), levels=[(d["ir"], d["level"])], seen=seen)
         except Exception as e:
             ctx.obligation("corpus:" + os.path.basename(f), False, repr(e))
+    for sp in systematic_specs():
+        found = evaluate(ctx, sp, origin="systematic", seen=seen)
+        feats = spec_features(sp)
+        ctx.case({"spec": sp, "failing": sorted({f[0] for f in found})[:6]}, nontrivial=nontrivial(sp),
+                 bucket="sweep:" + ("+".join(sorted(feats)) if feats else "plain") + (":ok" if not found else ":fails"))
     n_cases = ctx.budget(350, 4500)
     for _ in range(n_cases):
         sp = gen_program(rng, wide=True)
@@ -1576,3 +1587,102 @@ def replay(ctx, data):
     if not hit and iss:
         print("(the recorded failure %r is gone, but the round trip still fails in another way)" % base)
     return bool(hit)
+
+
+def systematic_specs():
+    """A fixed sweep: every parameter kind in every position (gate argument, homodyne angle, select), in plain and TDM
+    programs, plus each program-level feature on its own.  Run on every check before the random search."""
+    def cmd(op, p=(), modes=(0,), **k):
+        d = {"op": op, "p": list(p), "modes": list(modes), "dagger": False, "select": None, "dark": None}
+        d.update(k)
+        return d
+
+    def prog(cmds, n=2, tdm=None, **k):
+        s = {"name": "prog", "target": None, "shots": None, "cutoff": None, "tdm": tdm, "n": n, "cmds": cmds}
+        s.update(k)
+        if tdm:
+            s["n"] = sum(tdm["N"])
+        return s
+    E = lambda e: {"e": e}
+    kinds = {
+        "num": 0.25, "int": 2, "negzero": -0.0, "pi": math.pi, "cplx": {"c": [0.25, -0.5]},
+        "free": E(["free", "a"]), "freeexpr": E(["mul", ["num", 2], ["free", "a"]]), "freefn": E(["sin", ["free", "alpha"]]),
+        "freepow": E(["pow", ["free", "theta"], 2]),
+        "meas": E(["meas", 1]), "measexpr": E(["mul", ["num", 2], ["meas", 1]]), "measfn": E(["add", ["sin", ["meas", 1]], ["num", 1]]),
+        "measnegpow": E(["neg", ["pow", ["meas", 1], 2]]), "freenegpow": E(["neg", ["pow", ["free", "a"], 2]]),
+        "mixed": E(["add", ["free", "b1"], ["meas", 1]]), "mixedfn": E(["mul", ["free", "x"], ["cos", ["meas", 1]]]),
+        "free_q1": E(["free", "q1"]), "free_quux": E(["free", "quux"]), "free_p7": E(["free", "p7"]), "free_q1expr": E(["exp", ["free", "q1"]]),
+    }
+    tdm1 = {"N": [2], "arrays": [[0.5, 1.5, math.pi]], "shift": "default"}
+    tdm2 = {"N": [2], "arrays": [[1, 2], [0.25, -0.75]], "shift": "default"}
+    tkinds = dict(kinds)
+    tkinds.update({"tdm": E(["tdm", 0]), "tdmexpr": E(["mul", ["num", 2], ["tdm", 0]]), "tdmfn": E(["sin", ["tdm", 0]]), "tdmneg": E(["neg", ["tdm", 0]])})
+    out = []
+    for name, v in kinds.items():
+        out.append(prog([cmd("MeasureHomodyne", [0.0], [1]), cmd("Rgate", [v], [0])]))
+        out.append(prog([cmd("MeasureHomodyne", [0.0], [1]), cmd("Sgate", [0.5, v], [0])]))
+        out.append(prog([cmd("MeasureFock", [], [1]), cmd("MeasureHomodyne", [v], [0])]))
+        out.append(prog([cmd("MeasureFock", [], [1]), cmd("MeasureHomodyne", [v], [0], select=0.5)]))
+    for name, v in tkinds.items():
+        out.append(prog([cmd("BSgate", [v, 0.0], [0, 1]), cmd("MeasureHomodyne", [E(["tdm", 0])], [0])], tdm=tdm1))
+        out.append(prog([cmd("Rgate", [E(["tdm", 0])], [1]), cmd("MeasureHomodyne", [v], [0])], tdm=tdm1))
+    # values without a symbolic part, in every slot
+    for v in (0.5, 1, {"c": [0.1, 0.2]}):
+        out.append(prog([cmd("MeasureHomodyne", [0.3], [0], select=v)]))
+        out.append(prog([cmd("MeasureHeterodyne", [], [0], select=v)]))
+        out.append(prog([cmd("Rgate", [E(["tdm", 0])], [1]), cmd("MeasureHomodyne", [E(["tdm", 1])], [0], select=v)], tdm=tdm2))
+        out.append(prog([cmd("Rgate", [E(["tdm", 0])], [1]), cmd("MeasureHeterodyne", [], [0], select=v)], tdm=tdm2))
+    for sel in ({"l": [1]}, {"l": [0, 2]}):
+        ms = list(range(len(sel["l"])))
+        out.append(prog([cmd("MeasureFock", [], ms, select=sel)]))
+        out.append(prog([cmd("MeasureThreshold", [], ms, select={"l": [min(1, x) for x in sel["l"]]})]))
+        out.append(prog([cmd("MeasureFock", [], ms, dark={"l": [0.1 * (i + 1) for i in ms]})]))
+        out.append(prog([cmd("Rgate", [E(["tdm", 0])], [1]), cmd("MeasureFock", [], ms, select=sel)], tdm=tdm1))
+        out.append(prog([cmd("Rgate", [E(["tdm", 0])], [1]), cmd("MeasureFock", [], ms, dark={"l": [0.1 * (i + 1) for i in ms]})], tdm=tdm1))
+    out.append(prog([cmd("Rgate", [E(["tdm", 0])], [1]), cmd("MeasureHomodyne", [0.3], [0])], tdm=tdm1))
+    out.append(prog([cmd("Rgate", [E(["tdm", 0])], [1]), cmd("MeasureFock", [], [0, 1])], tdm=tdm1))
+    # daggers on every gate class, Fouriergate, meta operations
+    for g in sorted(DAGGERABLE - {"Fouriergate"}):
+        ps = [0.25 + 0.125 * i for i, _ in enumerate(GENERIC[g])]
+        out.append(prog([cmd("Squeezed", [0.3, 0.1], [0]), cmd("Coherent", [0.4, 0.2], [1]), cmd(g, ps, list(range(NMODES[g])), dagger=True)]))
+    out.append(prog([cmd("Fouriergate", [], [0])]))
+    out.append(prog([cmd("Fouriergate", [], [1], dagger=True)]))
+    out.append(prog([cmd("Rgate", [E(["tdm", 0])], [1]), cmd("Fouriergate", [], [0])], tdm=tdm1))
+    out.append(prog([cmd("Sgate", [0.3, 0.0], [1]), cmd("Del", [], [1]), cmd("Rgate", [0.3], [2])], n=3))
+    out.append(prog([cmd("New", [1], []), cmd("Rgate", [0.3], [1])], n=1))
+    # options
+    for tg in (None, "gaussian", "X8_01"):
+        for sh in (None, 7):
+            for cu in (None, 6):
+                out.append(prog([cmd("Sgate", [0.4, 0.0], [1])], target=tg, shots=sh, cutoff=cu))
+                out.append(prog([cmd("Rgate", [E(["tdm", 0])], [1]), cmd("MeasureHomodyne", [E(["tdm", 1])], [0])], tdm=tdm2, target=tg, shots=sh, cutoff=cu))
+    # TDM structure
+    for N in ([1], [3], [1, 2], [2, 1, 1]):
+        for shift in ("default", 0, 1):
+            t = {"N": N, "arrays": [[0.1, 0.2, 0.3]], "shift": shift}
+            out.append(prog([cmd("Rgate", [E(["tdm", 0])], [0]), cmd("MeasureHomodyne", [E(["tdm", 0])], [sum(N) - 1])], tdm=t))
+    # values: arrays, strings, bools, lists
+    out.append(prog([cmd("Ket", [arr_spec(np.array([0.0, 1.0, 0.0]))], [0])]))
+    out.append(prog([cmd("Ket", [arr_spec(np.array([0, 1j, 0]))], [1])]))
+    out.append(prog([cmd("DensityMatrix", [arr_spec(np.diag([0.0, 1.0]))], [0])]))
+    out.append(prog([cmd("Interferometer", [arr_spec(np.array([[0, 1], [1, 0]]))], [1, 0])]))
+    out.append(prog([cmd("Interferometer", [arr_spec(np.array([[0, 1j], [1j, 0]]))], [0, 1])]))
+    out.append(prog([cmd("Interferometer", [arr_spec(np.eye(3))], [2, 0, 1])], n=3))
+    out.append(prog([cmd("Gaussian", [arr_spec(np.eye(2) * 2.0), arr_spec(np.array([0.5, -0.5]))], [0])]))
+    out.append(prog([cmd("GaussianTransform", [arr_spec(np.array([[0.0, -1.0], [1.0, 0.0]]))], [1])]))
+    out.append(prog([cmd("Catstate", [0.5, 0.1, 1, {"s": "complex"}, 1e-12, 2], [0])]))
+    out.append(prog([cmd("Catstate", [{"c": [0.3, 0.2]}, 0.0, 0, {"s": "real"}, 1e-12, 2], [0])]))
+    out.append(prog([cmd("GKP", [{"l": [0.1, 0.2]}, 0.2, 1e-12, {"s": "real"}, {"s": "square"}], [0])]))
+    out.append(prog([cmd("MSgate", [0.3, 0.1, 10.0, 1.0, True], [0])]))
+    out.append(prog([cmd("MSgate", [0.3, 0.1, 9.0, 0.9, False], [0])]))
+    out.append(prog([cmd("Rgate", [E(["tdm", 0])], [1]), cmd("MSgate", [0.3, 0.1, 9.0, 0.9, False], [0])], tdm=tdm1))
+    out.append(prog([cmd("Zgate", [{"s": "hello"}], [0])]))
+    out.append(prog([cmd("Rgate", [E(["tdm", 0])], [1]), cmd("Zgate", [{"s": "hello"}], [0])], tdm=tdm1))
+    out.append(prog([cmd("Rgate", [E(["tdm", 0])], [1]), cmd("Ket", [arr_spec(np.array([0.0, 1.0]))], [0])], tdm=tdm1))
+    A = np.ones((2, 2)) - np.eye(2)
+    out.append(prog([cmd("GraphEmbed", [arr_spec(A)], [0, 1])]))
+    out.append(prog([cmd("GraphEmbed", [arr_spec(A)], [0, 1], kw={"mean_photon_per_mode": 2.0})]))
+    # mode layouts
+    out.append(prog([cmd("BSgate", [0.4, 0.1], [11, 3]), cmd("S2gate", [0.3, 0.2], [9, 10]), cmd("MeasureFock", [], [11, 0, 5])], n=12))
+    out.append(prog([cmd("Sgate", [0.4, 0.1], [0])], n=5))
+    return out
